@@ -116,7 +116,7 @@ def main(chk):
     chk.bounds = {'acceptable_methods_list_len': cfgs, 'cookies': cookies, 'tls': 'absent / present with 0..1 verified chains', 'factor_bits': '16 (symbolic)',
                   'strings': 'unbounded (sequence theory)', 'loop_unwinding': 'list length + 4, unwinding assertion checked'}
     chk.assumptions = ['Contract J: getAuthInfoFromAuthJWT succeeds only for a token signed by a keymaster key; claims arbitrary (C04 checks the claim tests)',
-                       'getUsernameIfKeymasterSigned / getUsernameIfIPRestricted / checkUserPassword replaced by their contracts (C06, C11, C07 check them)',
+                       'getUsernameIfKeymasterSigned / getUsernameIfIPRestricted replaced by their contracts in the lemma; both contracts are discharged from SSA in this run (obligations shared with C06 / C11); checkUserPassword by its contract (C07)',
                        'route precondition: URL path starts with ' + PREFIX, 'A-clock: one clock reading per request',
                        'postAuthSSHCertHandler / postAuthX509CertHandler are the signing sinks (their bodies: C02, C03, C10)',
                        'interpretation: "password" listed => any verified credential qualifies (the stricter reading is not enforced)']
@@ -126,6 +126,12 @@ def main(chk):
         if r is not None: required = r
     if required is None: return
     gate.gate_lemma(chk, ir, required, f'required={term(required)} cookies={cookies}', cookies=cookies, interest=LISTABLE | am.PASSWORD)
+    # the two certificate contracts the lemma relies on are discharged in the same run (shared with C06 / C11): an IP-restricted identity
+    # comes only from asking the verifier about (leaf, TCP peer address); a keymaster identity only from a chain of a published key
+    from checks.c11 import ob_daemon_asks_about_peer
+    from checks.c06 import ob_kmsigned
+    ob_daemon_asks_about_peer(chk, ir)
+    ob_kmsigned(chk, ir)
 
 
 if __name__ == '__main__':
